@@ -82,6 +82,8 @@ def check(case):
         if entry is None:
             continue
         out_names = entry["atoms"]
+        if g[0] == "na":
+            continue  # (strands of a mixed file: check_na on the same descriptor)
         if g[0] == "water":
             if "O" not in out_names:
                 res.bad("C03:lost:water-O", f"water oxygen of {g} not in the model")
@@ -146,6 +148,27 @@ def check(case):
     res.nontrivial = (opt_ran and not clean and not assign_only) or repaired
     res.label("repair" if repaired else "no-repair", "opt" if opt_ran else "no-opt",
               f"ff={ff}", f"chains={len(desc['chains'])}")  # fmt: skip
+    return res
+
+
+@st.composite
+def big_case(draw):
+    desc = draw(e2e.big_structure(missing=True, icodes=True))
+    ff = e2e.big_ff(draw, desc)
+    opts = list(draw(st.sampled_from(MODES[:6])))
+    for o in ("--keep-chain", "--whitespace", "--drop-water"):
+        if draw(st.integers(0, 3)) == 0:
+            opts.append(o)
+    return dict(part="big", desc=desc, ff=ff, opts=opts)
+
+
+def check_big(case):
+    """Protein chains and strands in one file, 4-30 chains, one long chain: the protein rules and the
+    strand rules on the same descriptor."""
+    res = check(case)
+    res.label(f"big={case['desc'].get('big')}")
+    if case["desc"].get("na"):
+        res.violations += check_na(case).violations
     return res
 
 
@@ -308,6 +331,7 @@ def parts(tier):
         Part("ffout", check_ffout, cases=lambda: ffout_cases(tier), exhaustive=True),
         Part("altnames", check, cases=altname_cases, exhaustive=True),
         Part("e2e", check, strategy=case(), budget=dict(quick=640, thorough=12000)),
+        Part("big", check_big, strategy=big_case(), budget=dict(quick=128, thorough=2400)),
         Part("windows", check, strategy=window_case(), budget=dict(quick=240, thorough=5000)),
     ]
 
